@@ -10,11 +10,6 @@ Definition vcall (v : val) : call := mkCall (vz (vnth 0 v)) (vz (vnth 1 v)) (vb 
 (* domain of the property: the sorted call list is ascending, disjoint, inside the file, and the patch set
    the calls produce has pairwise distinct offsets (so the unstable sort of Dump is deterministic) *)
 Definition sort_deterministic (cs : list call) : bool := strictly_asc (isort (add_all cs)).
-Fixpoint nondecreasing (ps : list patch) : bool :=
-  match ps with
-  | p :: ((q :: _) as r) => (p_off p <=? p_off q) && nondecreasing r
-  | _ => true
-  end.
 (* calls either come in file order (then equal offsets are consecutive and coalesce), or in any order with
    pairwise distinct start offsets (the Mach-O builder) *)
 Definition in_domain (cs : list call) (file : bytes) : bool :=
